@@ -908,8 +908,10 @@ package meta
 //@   modifies *except storeFSM.all store.all
 //@   ensures an_accepted_duration_becomes_the_policys_duration: result == nil && rpu.Duration != nil ==> rpi != nil && rpi.Duration == *rpu.Duration
 //@ func normalisedShardDuration
-//@   assumed
+//@   props C17
 //@   modifies nothing
+//@   ensures a_valid_requested_shard_duration_is_kept: sgd >= MinRetentionPolicyDuration ==> result == sgd
+//@   ensures never_below_the_minimum: result >= MinRetentionPolicyDuration
 //@ func (DatabaseInfo).RetentionPolicy
 //@   props C17
 //@   modifies nothing
